@@ -447,7 +447,10 @@ def r6(R):
                             if m == 'seek' and st in ('consumed',):
                                 st = 'rewound'
                             elif m == 'truncate' and not c.args:
-                                st = 'fresh'
+                                # cuts at the current position: only
+                                # useful after the rewind
+                                st = 'fresh' if st in (
+                                    'rewound', 'fresh') else st
                             elif m == 'getvalue':
                                 st = 'consumed' if st in (
                                     'fresh', 'unknown', 'unset') else st
@@ -498,7 +501,21 @@ def r7(R):
     def edge(node, st, lab, tgt):
         if node.kind == 'test' and lab in ('T', 'F'):
             for e, truth in implied_atoms(node.ast, lab):
-                if newargs_atom(e) and not truth:
+                if newargs_atom(e) and not truth and e.func.id == 'hasattr':
+                    return True
+                # getattr(k, '__getnewargs__', None) is None
+                if isinstance(e, ast.Compare) and len(e.ops) == 1 and \
+                        newargs_atom(e.left) and e.left.func.id == 'getattr' \
+                        and len(e.left.args) == 3 and isinstance(
+                            e.comparators[0], ast.Constant) and \
+                        e.comparators[0].value is None and isinstance(
+                            e.left.args[2], ast.Constant) and \
+                        e.left.args[2].value is None:
+                    isnone = isinstance(e.ops[0], ast.Is) == truth
+                    if isnone:
+                        return True
+                if newargs_atom(e) and not truth and e.func.id == 'getattr' \
+                        and len(e.args) == 3:
                     return True
         return st
 
